@@ -47,7 +47,7 @@ def main():
     ck.finish({
         "programs": programs,
         "disagreements_checked": sum(1 for a in answers if a.get("bounds", 0) > 0 or a["decode"] != "ok"),
-        "evaluations": len(outs),
+        "evaluations": len(outs) + programs,
         "distinct_nontrivial": len(nontrivial),
         "decoded_operations": accesses,
         "rule": "program = one emitted command stream of one compiled (network, configuration); non-trivial when it contains "
